@@ -52,3 +52,10 @@ Theorem C01_expression_parser_never_moves_backwards : forall fuel s,
   end.
 Proof. exact parse_cond_fuel_le. Qed.
 Print Assumptions C01_expression_parser_never_moves_backwards.
+
+(* the recursion fuel of the expression parser model is adequate: every amount of fuel above the
+   input length gives the same result, so the fuel-exhaustion branches never decide an outcome *)
+From GE Require Import Proofs.ExprParseFuel.
+Theorem C01_expression_parser_fuel_independent : forall n s, (length s < n)%nat -> parse_cond_fuel n s = parse_cond s.
+Proof. exact parse_cond_any_fuel. Qed.
+Print Assumptions C01_expression_parser_fuel_independent.
